@@ -8,66 +8,66 @@ VERIF = os.path.dirname(os.path.dirname(os.path.abspath(__file__)))
 
 # id -> (technique, level text, level note (assumed / trusted / correspondence-only clauses))
 T = {
- "C01": ("Lean 4 proof over an exact-rational model of the Steffen/bilinear kernels + model-vs-library correspondence (class B) + oracle",
-         "Theorems for every table (any N>=3, any strictly increasing abscissae, any ordinates): knots reproduced, C1 at knots, derivatives 1-3 are those of the cubic, Steffen limiter box, monotone and bounded on every segment, linear/parabola exactness, bilinear hull/continuity/exactness. Tied to /repo on every run by comparing Interpolate/Derivative/2-D Interpolate of the compiled library with the compiled Lean model on generated tables.",
-         "exact real arithmetic in the model; rounding-level overshoot is correspondence-only (tolerance K*eps*scale); NaN ordinates and the 1% extrapolation zone are covered by value correspondence only"),
- "C02": ("Lean 4 proof of the Ridder loop invariants over any function + trace correspondence (class C) + sign-change oracle",
-         "Theorems for every function f (no regularity), every bracket and accuracy: evaluations stay inside the bracket, the sign-change invariant and halving of the bracket, either order of the ends, zero ends, diagnostics for missing sign change/NaN, exactness on linear functions, the accuracy clause for the repaired termination rule, the iteration-limit bound, and the driver's own rounded-up rational square root as an instance of the square-root hypothesis. Tied to /repo by comparing the evaluation trace and result of Find_Root with the model on generated functions/brackets; the oracle checks the sign change within the accuracy on the library's own output.",
-         "sqrt enters as a parameter with its algebraic property as hypothesis; floating-point rounding is absorbed by trace tolerances (margin-excused divergences are counted)"),
- "C03": ("Lean 4 proof by induction on the recursion depth of adaptive Simpson + trace/value correspondence + mpmath oracle",
-         "Theorems for every depth/eps/interval: exact on every polynomial of degree <=5, swap/equal limits/sign of eps, evaluation locations, evaluation count <= 2^(depth+2)+1, value reuse invariant, tolerance budget; 4*eps bound conditional on the classical Simpson error term. Tied to /repo by comparing abscissae sequence, count and value of Integrate with the model.",
-         "the Simpson error representation (Peano kernel) is a named hypothesis, not formalised; estimator-regular families are checked against an mpmath reference (correspondence-only)"),
- "C04": ("Lean 4 refinement proof to Mathlib's Matrix + class A/B/D correspondence on all shapes",
-         "Every Vector/Matrix operation of the model refines the corresponding Mathlib Matrix operation for all shapes; the algebraic laws follow from Mathlib; shape rules (defined iff conformable) proved. Tied to /repo by exhaustive shape sweeps comparing every public member and operator spelling with the model (values, outcomes, bit-identical spellings).",
-         "exact arithmetic; Norm uses a sqrt parameter"),
- "C05": ("Lean 4 proof: Laplace determinant = Matrix.det, Gauss-Jordan invariant and soundness + kappa-scaled correspondence",
-         "det model equals Matrix.det for every n (all determinant laws follow from Mathlib); the Gauss-Jordan elimination with row exchanges keeps Left = Right*M and its result is a two-sided inverse; singular/non-square -> diagnostic. Tied to /repo by comparing Determinant/Inverse with exact rational results on structured matrices of size 1..7 with a tolerance scaled by the exactly computed condition number.",
-         "backward-error constant is correspondence-only; Invertible() tests a floating-point determinant against zero (nearly singular matrices outside the quantifier)"),
- "C06": ("Lean 4 proof of the memo machine, binomial floor formula, branch totality, Lentz/series recurrences + mpmath-reference correspondence",
-         "Proved: factorial memo for every call order, binomial floor formula = Nat.choose, exactly one GammaQ branch, P+Q=1, Lentz index advance and convergents, series terms. Accuracy over the (x,a) domain is decided by correspondence at the property's own tolerances against mpmath.",
-         "accuracy of Lanczos, limits of series/continued fraction, quadrature branch, Halley inversion: correspondence-only (mpmath 50 digits, validated not verified)"),
- "C07": ("Lean 4 proof of the algebraic coherence identities + mpmath-reference correspondence and integral oracle",
-         "Proved: uniform family completely, non-negativity, sums/mixtures/likelihood identities, quantile inverts CDF given erf/invErf; remaining clauses by correspondence against definitions evaluated with mpmath.",
-         "CDF = integral of pdf for transcendental families, tails, KDE normalisation: correspondence-only"),
- "C08": ("Lean 4 proof of the antiderivative/extrema/prefactor laws on the shared interpolation model + class B correspondence + sampling oracle",
-         "Proved: piece-wise antiderivative is the integral of the cubic, additive, antisymmetric, derivative = curve; Local_Minimum/Maximum bound every curve value on [x1,x2] and are attained (composed with C01's monotonicity and C09's canonical index), min*(x2-x1) <= Integrate <= max*(x2-x1); prefactor scaling of either sign. Tied to /repo by comparing Integrate/Local_*/Global_* (1-D, 2-D) with the model.",
-         "exact arithmetic; extrapolation zone by value correspondence only"),
- "C09": ("Lean 4 proof that Locate is a function of x alone from every cache state + class A/D correspondence on long histories",
-         "Proved for every table, every search state and every history: the index search brackets x, is canonical (same index from hunting up, hunting down and bisection, also at knots), and every query answer is independent of the history. Tied to /repo by comparing Locate indices along call sequences of thousands of steps with the model and used objects/copies against fresh objects bit-for-bit.",
-         "exact arithmetic; the 1e-2 edge tolerance is modelled as 1/100 (generators keep a margin)"),
- "C10": ("Lean 4 proof of guard <-> meaningfulness per entry point + outcome correspondence under ASan/UBSan",
-         "For each guarded entry point: the model's guard fires exactly on meaningless requests and meaningful requests never index out of range. Tied to /repo by running every entry point on both sides of every guard in a forked child of the sanitizer build and comparing outcomes.",
-         "actual memory safety is observed by the sanitizers, the theorems cover the index arithmetic"),
- "C11": ("Lean 4 proof of best-so-far invariants of Bracket/Brent/Nelder-Mead for every objective + trace correspondence + descent/convergence oracle",
-         "Proved for every objective and every rounding of intermediate arithmetic: the result is never worse than any starting point, reported state is consistent (fmin = f(x_min), y[i] = f(simplex[i]), best-first), Find_Maximum f = Find_Minimum (-f). Tied to /repo by comparing evaluation traces with the model.",
-         "convergence on bowls is decided by the oracle only (no general theorem exists for Nelder-Mead)"),
- "C12": ("Lean 4 proof of symmetry/orientation/affine-transfer of the rule assembly + per-order evaluation against an mpmath reference",
-         "Proved for every n and any root values: mirror symmetry of nodes/weights, reversed limits, overloads agree, affine transfer, size mismatch -> diagnostic. Exactness to degree 2n-1, positivity, ordering are evaluated per order on the library's nodes/weights (exhaustive n<=512 in the thorough tier).",
-         "exactness for all n is an evaluation per n (a test), not a theorem; reference nodes by mpmath"),
- "C13": ("Lean 4 proof of dispatch/nesting/region layout over abstract 1-D integrators + exact-integral correspondence",
-         "Proved: swap/equal limits for every method, unknown method -> diagnostic, nesting order per axis, separable => product, Monte-Carlo region layout, spherical wrapper integrand. Tied to /repo on asymmetric polynomial integrands with distinct limits per axis against exact rational integrals.",
-         "accuracy of the Boost rules: correspondence-only"),
- "C14": ("Lean 4 proof of containment/accounting/history-independence + seeded self-differential correspondence",
-         "Proved: sample points inside the region (brute force; every Miser sample through the whole recursion), Miser accounting/totality/constants exact, independence of the static dithering state after the repair, Rebin keeps the Vegas grid increasing and ending at 1 without reading out of range, every Vegas array cell read is written first when init = 0. Tied to /repo with a fixed random_device seed: results after arbitrary histories vs a fresh process bit-for-bit; recorded abscissae inside the region.",
-         "six-sigma accuracy and Vegas constants: correspondence-only; random_device interposed in the harness executable"),
- "C15": ("Lean 4 proof of Householder/QR algebra over Mathlib matrices + class B correspondence; eigenvector defect as known finding",
-         "Proved: Householder reflector symmetric orthogonal and maps to alpha*e1; for the executable list model Q*R = M, Q orthogonal, R upper triangular (the explicit zeroing is a no-op); every Eigenvalues iterate is orthogonally similar to M and a returned spectrum sums to the trace; Rayleigh fixed point. Tied to /repo by comparing Q, R, eigenvalues with the model / exact spectra.",
-         "convergence of QR iteration and inverse iteration: correspondence-only; Eigensystem/Eigenvectors known finding by call site"),
- "C16": ("Lean 4 proof of the Rodrigues and spherical-frame identities + mpmath-glue correspondence",
-         "Proved as polynomial identities for every unit axis and every (cos, sin) pair: proper orthogonality, fixed axis, right-handed turn, composition; spherical norm/polar angle/handedness including axes parallel and antiparallel to z. Tied to /repo on generated angles/axes.",
+ "C01": ("Lean 4 proof over an exact-rational model of the Steffen/bilinear kernels (constants regenerated from the source by translators/constants.py) + model-vs-library correspondence (class B) + oracle at the literal statement",
+         "Theorems for every table (any N>=3, strictly increasing abscissae, any ordinates): every knot INCLUDING the last reproduced exactly, C1 at knots, derivatives 1-3 are those of the cubic, Steffen limiter box, monotone and bounded on every segment, linear/parabola exactness, scale covariance under x->lam x, y->mu y, the closed 1% extrapolation zone with the sharp excursion bound 2.0302% of the last data step, bilinear hull/continuity/exactness. Tied to /repo on every run by comparing Interpolate/Derivative/2-D Interpolate of the compiled library with the compiled Lean model on generated tables (joint x/y scales over the double range, exact zone edge).",
+         "exact real arithmetic in the model; interior rounding-level overshoot/backward steps of evaluating the cubic in doubles are accepted up to 32 eps*max|y| (measured 21.8) and listed in the evidence; knots, plateaus and 2-D nodes are bit-exact"),
+ "C02": ("Lean 4 proof of the Ridder loop invariants over any function (as coded incl. the power-of-two scaling) + trace correspondence (class C) + zero-slack sign-change witness oracle",
+         "Theorems for every function f (no regularity), every bracket and accuracy: evaluations stay inside the bracket, sign-change invariant and halving, either order of the ends, the end-value decision table over {neg,pos,zero,nan} (NaN beats zero), exactness on linear functions, the accuracy clause, the 2200-iteration bound, scale invariance of the step (ridder_scale_invariant, frexpExp_spec), the fallback unreachable in exact arithmetic, and the driver's own rational square root as an instance of the sqrt hypothesis. Tied to /repo by comparing evaluation traces and results on generated functions/brackets (value scales 1e-320..1e300, brackets to 600 decades and DBL_MAX ends); the oracle demands an evaluated sign change within the accuracy on the library's own evaluations.",
+         "sqrt enters as a parameter with its property as hypothesis at the arguments used; infinite end values are oracle-only"),
+ "C03": ("Lean 4 proof by induction on the recursion depth of adaptive Simpson (constants regenerated from the source) + multiset-of-abscissae/value correspondence + mpmath oracle",
+         "Theorems for every depth/eps/interval: exact on every polynomial of degree <=5, swap/equal limits/sign of eps, evaluation locations, count between 5 and 2^(depth+2)+1, value reuse, tolerance budget, independence of what the integrand does internally and of the evaluation order (integrate_nested_independent, integrate_evals_perm); 4*eps bound conditional on the classical Simpson error term. Tied to /repo by comparing the multiset and count of abscissae and the value with the model, incl. nested re-entrant calls and narrow intervals far from the origin.",
+         "the Simpson error representation (Peano kernel) is a named hypothesis; the 4|eps| clause is evaluated only on runs without the non-convergence warning"),
+ "C04": ("Lean 4 refinement proof to Mathlib's Matrix + bitwise IEEE replay correspondence on all shapes + object-history ops",
+         "Every Vector/Matrix operation of the model refines the corresponding Mathlib Matrix operation for all shapes; algebraic laws from Mathlib; shape rules (defined iff conformable), block-constructor layout (defined iff rectangular non-empty layout with consistent sizes), chained compound assignment, observers after mutators, Norm/Normalized as coded (power-of-two scaling value-neutral). Tied to /repo by exhaustive shape sweeps: every value clause is a zero-slack replay of correctly rounded IEEE operations in loop order; Norm within (n+2) eps over the whole double range.",
+         "assumes no FMA contraction in the library build (stated in the evidence); Matrix::Norm (unscaled) stays within 1e+-21"),
+ "C05": ("Lean 4 proof: Laplace determinant (with the zero-skip as coded) = Matrix.det, Gauss-Jordan with partial pivoting invariant, soundness and totality + kappa-scaled correspondence + exact-rank oracle",
+         "det model equals Matrix.det for every n; Gauss-Jordan with row exchanges keeps Left = Right*M, its result is a two-sided inverse and it is total on invertible matrices; singular/non-square -> diagnostic. Tied to /repo against exact rational results on structured matrices of size 1..7 (4 n kappa eps for the inverse, (n+2) eps perm for the determinant, laws on general doubles).",
+         "known finding C05-singular-residue: exactly singular matrices whose cofactor determinant is a non-zero rounding residue are inverted; determinants that round to 0 are an exclusion (listed)"),
+ "C06": ("Lean 4 proof of the memo machine, binomial formulas (floor formula and gcd-reduced product = Nat.choose), branch totality, clamp, Lentz/series recurrences + mpmath-reference correspondence at the literal tolerances",
+         "Proved: factorial memo for every call order, Binomial_Coefficient = Nat.choose on both code paths and symmetric, exactly one GammaQ branch, P,Q in [0,1] and P+Q=1, Lentz index advance and convergents, series positivity, guards (Gamma x<=0, Inv_GammaP/Q p outside [0,1]). Accuracy over the (x,a) domain (a from 1e-320 to 1e4) by correspondence against mpmath: 8/6/16 ulp for the recurrences, 1e-14 references, P,Q in [0,1] exact, monotone at rounding.",
+         "accuracy of Lanczos/tgamma, limits of series/continued fraction, quadrature branch, Halley inversion: correspondence-only (mpmath 50 digits)"),
+ "C07": ("Lean 4 proof of the algebraic coherence identities, guards, series branch and KDE normalisation + mpmath-reference correspondence and integral oracle",
+         "Proved: uniform family completely, non-negativity, sums/mixtures/likelihood identities (incl. empty bins and n=0), scale covariance of the scale families, the Maxwell-Boltzmann series branch non-negative and monotone, CDF_Binomial <= 1 and = sum, the normalised KDE table integrates to exactly 1 in the model, reject-or-formula theorems for every parameter guard; remaining clauses by correspondence against definitions evaluated with mpmath at the literal tolerances (every CDF inside [0,1] exactly).",
+         "CDF = integral of pdf for transcendental families, tails: correspondence-only"),
+ "C08": ("Lean 4 proof of the antiderivative/extrema/prefactor laws on the shared interpolation model (sqrt as a class parameter) + class B correspondence + sampling oracle incl. the extrapolation zone",
+         "Proved: piece-wise antiderivative (relative to the left knot, as coded) is the integral of the cubic, additive, antisymmetric, derivative = curve; Local_Minimum/Maximum bound every curve value on [x1,x2] and are attained - also for limits in the closed 1% zone, where the continued edge cubic is monotone between consecutive candidates (stationary values as coded); min*len <= Integrate <= max*len; prefactor scaling of either sign. Tied to /repo on tables as in C01: Integrate at 16 eps*scale, evaluations vs Local/Global at 64/32/8 eps, prefactor scaling bit-equal.",
+         "exact arithmetic; SqrtOk only at the discriminant actually passed"),
+ "C09": ("Lean 4 proof that Locate is a function of x alone from every cache state + class A/D correspondence on long histories and object pools",
+         "Proved for every table, search state and history: the index search brackets x, is canonical (same index from hunting up/down and bisection, also at knots and in the closed zone), every query answer is independent of the history, prefactors act exactly. Tied to /repo by comparing Locate indices along call sequences of thousands of steps and used objects/copies against fresh objects bit-for-bit; prefactor scaling bit-equal to factor x unit output.",
+         "exact arithmetic"),
+ "C10": ("Lean 4 proof of guard <-> meaningfulness per entry point on guards REGENERATED from the source on every run (translators/guards.py, 81 guards, gen_*_eq theorems) + outcome correspondence under ASan/UBSan",
+         "For each guarded entry point: the regenerated guard equals the model's guard for all arguments, the model's guard fires exactly on meaningless requests, and meaningful requests never index out of range, also after object histories (Resize/Assign/Delete). Tied to /repo by running every entry point on both sides of every guard (zero margin at the 1% edge, tables of length 0..3, parameters on both sides of their range) in a forked child of the sanitizer build.",
+         "actual memory safety is observed by the sanitizers; the translator (Python) is trusted and cross-checked by the equality proofs and the correspondence run"),
+ "C11": ("Lean 4 proof of best-so-far invariants and the exit rule of Bracket/Brent/Nelder-Mead for every objective (constants regenerated) + trace correspondence on distinct points + descent/convergence oracle",
+         "Proved for every objective and rounding: result never worse than any starting point, reported state consistent, Find_Maximum f = Find_Minimum (-f), the Nelder-Mead exit rule, independence under memoisation and nested minimisation. Tied to /repo by comparing evaluation traces (bit-exact round-to-double model); an iteration-limit exit on a stated bowl class is a property failure whatever the model does.",
+         "convergence on bowls is decided by the oracle (Brent's own bound in 1-D; empirical constant 256 in 1-2 D); two known findings (Nelder-Mead premature termination / 3-D collapse)"),
+ "C12": ("Lean 4 proof of Gauss-Legendre exactness for every n from the CODED recurrence and weights (orthogonality, Christoffel-Darboux, real simple roots in (-1,1), positive weights) + per-order correspondence",
+         "Proved for every n: mirror symmetry, reversed limits, overloads agree, affine transfer, size mismatch -> diagnostic; the polynomials of the coded recurrence are orthogonal, have n distinct real roots in (-1,1), the coded weight at the returned node is 2/((1-z^2)P_n'(z)^2) > 0, and the rule is exact to degree 2n-1 on every interval with weights summing to b-a; nested re-entrant use. What is evaluated per order on the library's output is only that its doubles are those roots/weights to rounding (Newton convergence).",
+         "convergence of the coded Newton loop and the ordering of the output table: correspondence (rounding-only tolerances since f38103c)"),
+ "C13": ("Lean 4 proof of dispatch/nesting/region layout over abstract 1-D integrators + exact-integral correspondence + bitwise limit-reversal oracle",
+         "Proved: swap/equal limits for every method, unknown method -> diagnostic at every level, nesting order per axis, separable => product, nested accuracy 2-D/3-D (conditional), Monte-Carlo region layout, spherical wrapper incl. the full sphere, explicit Gauss-Kronrod depth honoured. Tied to /repo on asymmetric integrands with distinct limits per axis against exact integrals: 1e-9 relative to |I| for five methods, reversal negates bit for bit.",
+         "accuracy of the Boost rules: correspondence-only; Trapezoidal's 1e-6 is read relative to the integral of |f| (stated)"),
+ "C14": ("Lean 4 proof of containment/accounting/history-independence/cell arithmetic + seeded self-differential correspondence incl. abandoned and nested calls",
+         "Proved: sample points inside the region (brute force; every Miser sample through the whole recursion), Miser accounting/totality/constants exact, independence of the static dithering state, Rebin keeps the Vegas grid increasing, every Vegas array cell read is written first, the stratification odometer (range, maximum attained, full sweep, stale sweep). Tied to /repo with a fixed random_device seed: results after arbitrary histories vs a fresh process bit-for-bit; constants at (n+100) eps / 32 eps.",
+         "six-sigma accuracy: correspondence-only; known finding C14-vegas-constants"),
+ "C15": ("Lean 4 proof of Householder/QR algebra over Mathlib matrices + class B correspondence modulo the sign gauge; eigenvector defects as known findings",
+         "Proved: Householder reflector symmetric orthogonal and maps to alpha*e1; for the executable list model Q*R = M, Q orthogonal, R upper triangular; sign-gauge invariance; every Eigenvalues iterate is orthogonally similar to M and a returned spectrum sums to the trace. Tied to /repo by comparing Q, R (gauge R_kk >= 0), eigenvalues with the model / exact spectra at flat 64 eps, exact zeros below the diagonal.",
+         "convergence of QR iteration: correspondence-only; Eigensystem/Eigenvectors/slow-swap known findings by call site"),
+ "C16": ("Lean 4 proof of the Rodrigues and spherical-frame identities (norm and hypot as coded) + mpmath-glue correspondence over the whole range of axis lengths and tilts",
+         "Proved as polynomial identities for every unit axis and (cos, sin) pair: proper orthogonality, fixed axis, right-handed turn, composition; spherical norm/polar angle/handedness through the three branches of the repaired code. Tied to /repo on generated angles/axes: lengths 5e-324..1.7e308, tilts from +-z 5e-324..1e-1, at 32/32/8 eps.",
          "sqrt/cos/sin enter as parameters with their algebraic properties as hypotheses"),
- "C17": ("Lean 4 proof of Round/Sign/Floats_Equal laws and VSH coefficient-table sum rules + mpmath-reference correspondence",
-         "Proved: Round laws with the exponent as constrained parameter, Sign/Step/Floats_Equal laws, Dawson oddness, VSH table normalisation/orthogonality/selection rules for all l, m. Accuracy of Dawson/Erfi/Inv_Erf and point-wise VSH identities by correspondence against mpmath.",
-         "Boost spherical harmonics and libm: trusted, compared against mpmath"),
+ "C17": ("Lean 4 proof of Round/Sign/Floats_Equal laws and VSH coefficient-table sum rules + mpmath-reference correspondence + bitwise law oracle + pre-main probe",
+         "Proved: Round laws as coded (carry branch value-neutral), Sign/Step/Floats_Equal laws (reflexive for every tol >= 0), Dawson oddness and coefficient table, Erfi order, VSH table sum rules for all l, m, history independence. Round odd/idempotent/monotone and Y_{l,-m} conjugation are judged bit for bit on the implementation; accuracy of Dawson/Erfi/Inv_Erf and point-wise VSH identities against mpmath.",
+         "Boost spherical harmonics and libm: trusted, compared against mpmath; Erfi beyond |x| = 26.71 overflows the double range (stated)"),
  "C18": ("Lean 4 proof of the sample-count/draw-count/domain/acceptance logic + exact MT19937 prediction and fixed-seed statistical oracle",
-         "Proved for all (sample, thinning>=1, burn_in): exactly `sample` values, draw counts, domain containment, detailed balance; Knuth-Poisson equivalence for every mean including several exp(STEP) rescalings (with a proved tie witness). Tied to /repo by predicting generator draws with an exact MT19937 model, equal-state reproducibility (class D) and deterministic fixed-seed goodness-of-fit tests.",
+         "Proved for all (sample, thinning>=1, burn_in): exactly `sample` values, draw counts, domain containment, detailed balance; Knuth-Poisson equivalence for every mean; inverse-transform tolerance follows the width of the domain. Tied to /repo by predicting generator draws with an exact MT19937 model, the model's chain on the same uniforms, equal-state reproducibility and deterministic fixed-seed goodness-of-fit tests.",
          "distribution of the output: correspondence-only (KS/chi-square at fixed seeds)"),
- "C19": ("Lean 4 proof of the helper specifications + exhaustive class A correspondence on the property's grids",
-         "Proved for all arguments: Workload_Distribution spec, Range, Linear_Space, closest-index optimality, list templates = library functions, statistics laws. Tied to /repo by exhaustive enumeration of (workers,tasks), integer ranges and small sorted lists, plus random value cases.",
-         "Log_Space (exp/log) and sqrt in Standard_Deviation: correspondence-only"),
- "C20": ("Lean 4 proof on a model REGENERATED from Natural_Units.cpp on every run (translator) + byte-level export correspondence + four-compiler-configuration run",
-         "Proved: six-digit round trip at token level, table shape, In_Units laws; initialisation-order soundness and derived-unit identities on the unit table that the translator regenerates from the current source on every run (kernel `decide`). Tied to /repo by comparing exported bytes with the model's rendering and the constants of builds with g++/clang++ at -O0/-O2 with the model's values and static/dynamic classification.",
-         "the translator (Python) and the one assumption about compilers (foldable initialisers are folded) are trusted and cross-checked with nm; character-level %g lemma is a stated extension"),
+ "C19": ("Lean 4 proof of the helper specifications + exhaustive class A correspondence on the property's grids + literal-statement oracle",
+         "Proved for all arguments: Workload_Distribution spec, Range, Linear_Space (overflow branch value-neutral), Log_Space two-ended form (ends exact, equal spacing in the log), closest-index optimality for any minimiser, list templates (IEEE element type for Lists_Equal), statistics laws. Tied to /repo by exhaustive enumeration and by every pair of doubles for the grids (start == min, strict monotonicity always).",
+         "exp/log and sqrt: correspondence-only; rounding-level near ties of Locate_Closest_Location and < 3 ulp per step of Log_Space are listed exclusions"),
+ "C20": ("Lean 4 proof on a model REGENERATED from Natural_Units.cpp on every run (translator) + byte-level export/import proofs and correspondence + four-compiler-configuration run",
+         "Proved: six-digit round trip from characters to values (parseDec o render, tokenizer, line counting under any chunking, bytes round trip for tables and lists incl. the empty table), In_Units laws; initialisation-order soundness and derived-unit identities on the regenerated unit table (kernel decide); every quotient of finite doubles is inside the long double reader range. Tied to /repo by comparing exported bytes with the model's rendering and the constants and round trips of builds with g++/clang++ at -O0/-O2.",
+         "the translator (Python) and the assumption about compilers (foldable initialisers are folded) are trusted and cross-checked with nm; long double is assumed to be x87 80-bit (where it is double the repair 5c3fb95 is a no-op)"),
 }
 
 CLAIMED_FILE = os.path.join(VERIF, "tools", "claimed.json")
